@@ -23,7 +23,8 @@ def register(w):
         "generic_requires": ["wf(node)", "binders_on(node, self._ignore_stack)"],
         "generic_ensures": ["same(self._ignore_stack, old(self._ignore_stack))"],
         "assumes": ["generic_visit leaves the ignore stack as it found it when every child visit "
-                    "does (the hypothesis); what visit_Name / visit_Attribute / visit_Call put in "
+                    "does (the hypothesis) and returns the node it was given (the library's "
+                    "NodeTransformer.generic_visit edits in place: same class); what visit_Name / visit_Attribute / visit_Call put in "
                     "place of a name is outside engine P (reflection on captured Python values): "
                     "bounded, C04"],
         "properties": ["C04"],
@@ -98,6 +99,20 @@ def register(w):
         # a name on the ignore stack (bound inside the lambda) is never replaced
         "ensures": ["implies(any(a == node.id for a in flat(old(self._ignore_stack))), same(result, node))",
                     "same(self._ignore_stack, old(self._ignore_stack))"],
+        "modifies": ["*"],
+        "properties": ["C04"],
+    })
+    C.register(w, {
+        "key": f"{K}.visit_Call",
+        "self": K,
+        "params": {"node": "py"},
+        "requires": ["isinstance(node, ast.Call)", "wf(node)"],
+        "raises": {"Exception": "any"},
+        # a call binds no name: its children are visited under the stack as it is, which is left
+        # as it was found; whatever the callee became, the result is still a call
+        "generic_ensures_here": ["implies(isinstance(node, ast.Call), isinstance(result, ast.Call))"],
+        "ensures": ["same(self._ignore_stack, old(self._ignore_stack))",
+                    "isinstance(result, ast.Call)"],
         "modifies": ["*"],
         "properties": ["C04"],
     })
